@@ -913,7 +913,9 @@ def trees(draw, types, dom, ran, depth, mode='c04', pairs=None,
     if ran_space:
         rules += ['lvec', 'addvec', 'addvec']
         if (dom, fkey_ran) in pairs:
-            rules += ['flvec']
+            # v * f; more often when the vector space is the functional's
+            # domain (aliased in-place evaluation is then possible)
+            rules += ['flvec'] * (3 if dom == ran else 1)
     if dom == ran:
         rules += ['pow']
     if R.cat == 'field' and dom_space and ran == fkey_dom and mode == 'c04':
@@ -935,6 +937,19 @@ def trees(draw, types, dom, ran, depth, mode='c04', pairs=None,
         return draw(trees(types, d, r, depth - 1, mode, pairs))
 
     node = {'op': rule, 'dom': dom, 'ran': ran, 'fk': 'op'}
+
+    def flvec_child():
+        """v * f as operand of a*(.), (.)+w, -(.) (vector space == domain
+        of f), drawn on purpose for a third of these nodes."""
+        if mode == 'c04' and dom == ran and ran_space and \
+                (dom, fkey_ran) in pairs and \
+                draw(st.sampled_from([True, False, False])):
+            return {'op': 'flvec', 'dom': dom, 'ran': ran, 'fk': 'op',
+                    'a': draw(trees(types, dom, fkey_ran,
+                                    max(depth - 2, 0), mode, pairs)),
+                    'v': draw(values(types, ran)),
+                    'how': draw(st.sampled_from(['op', 'op', 'ctor']))}
+        return None
     if rule == 'leaf':
         return draw(leaves(types, dom, ran, mode))
     if rule == 'comp_pos':
@@ -985,7 +1000,7 @@ def trees(draw, types, dom, ran, depth, mode='c04', pairs=None,
         node['fk'] = node['a']['fk']
         return node
     if rule == 'lscal':
-        node['a'] = sub_full()
+        node['a'] = flvec_child() or sub_full()
         node['s'] = draw(scalars(tinfo(types, fkey_ran).cplx))
         node['how'] = draw(st.sampled_from(['op', 'op', 'op', 'ctor']))
         node['fk'] = node['a']['fk'] if node['how'] == 'op' else 'op'
@@ -1054,7 +1069,7 @@ def trees(draw, types, dom, ran, depth, mode='c04', pairs=None,
         node['how'] = draw(st.sampled_from(['op', 'op', 'ctor']))
         return node
     if rule == 'addvec':
-        node['a'] = sub_full()
+        node['a'] = flvec_child() or sub_full()
         if mode == 'c06' and aliases_input(node['a']):
             return node['a']        # region of known finding C04-K4
         node['v'] = draw(values(types, ran))
